@@ -570,6 +570,12 @@ impl AgentSim {
                 self.model.hint_live_gone = Some(matches!(q, Reply::Tx(None)));
             }
         }
+        if let Reply::TimedOut(tid) = &r {
+            if self.model.ambiguous_timeout(*tid, at) {
+                let q = exec(&mut self.agent, &Call::QueryTx { tid: *tid }, self.base);
+                self.model.hint_live_gone = Some(matches!(q, Reply::Tx(None)));
+            }
+        }
         let first = match self.model.on_poll(at, &r) {
             Ok(o) => {
                 match &o {
@@ -605,6 +611,12 @@ impl AgentSim {
             let r2 = self.call(ctx, Call::Poll { at })?;
             if let Reply::Cancelled(tid) = &r2 {
                 if self.model.ambiguous_cancel(*tid) {
+                    let q = exec(&mut self.agent, &Call::QueryTx { tid: *tid }, self.base);
+                    self.model.hint_live_gone = Some(matches!(q, Reply::Tx(None)));
+                }
+            }
+            if let Reply::TimedOut(tid) = &r2 {
+                if self.model.ambiguous_timeout(*tid, at) {
                     let q = exec(&mut self.agent, &Call::QueryTx { tid: *tid }, self.base);
                     self.model.hint_live_gone = Some(matches!(q, Reply::Tx(None)));
                 }
